@@ -2,6 +2,7 @@ package pongo2
 
 type tagWithNode struct {
 	withPairs map[string]IEvaluator
+	pairOrder []string // the keys of withPairs in the order they are written
 	wrapper   *NodeWrapper
 }
 
@@ -10,8 +11,11 @@ func (node *tagWithNode) Execute(ctx *ExecutionContext, writer TemplateWriter) *
 	withctx := NewChildExecutionContext(ctx)
 
 	// Put all custom with-pairs into the context
-	for key, value := range node.withPairs {
-		val, err := value.Evaluate(ctx)
+	// (in the order they are written: which of two failing pairs is reported,
+	// and the order of calls made by the expressions, must not depend on Go's
+	// map order)
+	for _, key := range node.pairOrder {
+		val, err := node.withPairs[key].Evaluate(ctx)
 		if err != nil {
 			return err
 		}
@@ -63,6 +67,9 @@ func tagWithParser(doc *Parser, start *Token, arguments *Parser) (INodeTag, *Err
 			if keyToken == nil {
 				return nil, arguments.Error("Expected an identifier", nil)
 			}
+			if _, has := withNode.withPairs[keyToken.Val]; !has {
+				withNode.pairOrder = append(withNode.pairOrder, keyToken.Val)
+			}
 			withNode.withPairs[keyToken.Val] = valueExpr
 		} else {
 			keyToken := arguments.MatchType(TokenIdentifier)
@@ -75,6 +82,9 @@ func tagWithParser(doc *Parser, start *Token, arguments *Parser) (INodeTag, *Err
 			valueExpr, err := arguments.ParseExpression()
 			if err != nil {
 				return nil, err
+			}
+			if _, has := withNode.withPairs[keyToken.Val]; !has {
+				withNode.pairOrder = append(withNode.pairOrder, keyToken.Val)
 			}
 			withNode.withPairs[keyToken.Val] = valueExpr
 		}
